@@ -62,14 +62,13 @@ VMixed(ev) == Judge(ev, JMixedOk(Res(ev)[1], Arg(ev, 1), Arg(ev, 2), Arg(ev, 3),
 
 VNormalize(ev) == LET v == Arg(ev, 1) IN JudgeIf(ev, ~DvIsZero(v) /\ NormRangeOk(Norm2(v), Fm(ev)), JNormalizeOk(Res(ev), v, Fm(ev)))
 
-\* faceforward(N, I, Nref): N bit for bit when dot(Nref, I) < 0, otherwise -N (as values: GLM computes 0 - N, so a zero
-\* component keeps the sign +0)
+\* faceforward(N, I, Nref): N bit for bit when dot(Nref, I) < 0, otherwise -N bit for bit (IEEE negation: every sign bit
+\* flipped, zeros included)
 VFaceforward(ev) ==
     LET I == Arg(ev, 2) Nref == Arg(ev, 3) f == Fm(ev) d == DvDot(Nref, I)
     IN IF ~Dom(ev) THEN VSkip
        ELSE IF ~((SmallIntV(I) /\ SmallIntV(Nref)) \/ JDotSignCertain(Nref, I, f)) THEN VSkip
-       ELSE IF DSign(d) < 0 THEN VBool(ev.r = ev.a[1])
-       ELSE VBool(FinSeq(ev, ev.r) /\ JAntiOk(Arg(ev, 1), Res(ev)))
+       ELSE VBool(ev.r = (IF DSign(d) < 0 THEN ev.a[1] ELSE FlipV(ev.a[1])))
 
 VReflect(ev) ==
     LET I == Arg(ev, 1) N == Arg(ev, 2) r == Res(ev) f == Fm(ev) rr == DSeq(f, ev.rr)
@@ -106,8 +105,8 @@ VNorms(ev) ==
 VProj(ev) == LET x == Arg(ev, 1) n == Arg(ev, 2) IN JudgeIf(ev, ~DvIsZero(n), JProjOk(Res(ev), x, n, Fm(ev)))
 VPerp(ev) == LET x == Arg(ev, 1) n == Arg(ev, 2) IN JudgeIf(ev, ~DvIsZero(n), JPerpOk(Res(ev), x, n, Fm(ev)))
 
-VOrtho2(ev) == LET x == Arg(ev, 1) y == Arg(ev, 2) f == Fm(ev) w == JOrtho2Dir(x, y)
-               IN JudgeIf(ev, JResolved(w, JOrtho2Err(x, y, f)) /\ NormRangeOk(Norm2(w), f), JOrtho2Ok(Res(ev), x, y, f))
+VOrtho2(ev) == LET x == Arg(ev, 1) y == Arg(ev, 2) f == Fm(ev) w == JOrtho2Dir(x, y) e == JOrtho2Err(x, y, f)
+               IN JudgeIf(ev, JResolved(w, e) /\ NormRangeOk(Norm2(w), f), JOrtho2OkWE(Res(ev), y, w, e, f))
 VOrtho3(ev) ==
     LET m == Arg(ev, 1) r == Res(ev) f == Fm(ev)
         col(s, k) == <<s[3 * k + 1], s[3 * k + 2], s[3 * k + 3]>>
@@ -116,8 +115,8 @@ VOrtho3(ev) ==
        ELSE IF ~FinSeq(ev, ev.r) THEN (IF JOrtho3WellCond(m0, m1, m2) THEN VBad ELSE VSkip)
        ELSE VBool(JOrtho3Ok(col(r, 0), col(r, 1), col(r, 2), m0, m1, m2, f))
 VTriangle(ev) ==
-    LET p1 == Arg(ev, 1) p2 == Arg(ev, 2) p3 == Arg(ev, 3) f == Fm(ev) w == JTriDir(p1, p2, p3)
-    IN JudgeIf(ev, JResolved(w, JTriErr(p1, p2, p3, f)) /\ NormRangeOk(Norm2(w), f), JTriOk(Res(ev), p1, p2, p3, f))
+    LET p1 == Arg(ev, 1) p2 == Arg(ev, 2) p3 == Arg(ev, 3) f == Fm(ev) w == JTriDir(p1, p2, p3) e == JTriErr(p1, p2, p3, f)
+    IN JudgeIf(ev, JResolved(w, e) /\ NormRangeOk(Norm2(w), f), JTriOkWE(Res(ev), p1, p2, p3, w, e, f))
 
 \* closestPointOnLine(p, a, b): a or b bit for bit outside the segment, the foot of the perpendicular inside
 VClosest(ev) ==
